@@ -22,7 +22,7 @@ open Gen
 
 /-- The model writes at most one acknowledgement per request and attaches only what it acknowledged. -/
 theorem ack_discipline_model (w : World) (id : ConnIdent) (req : Req) (ts : TunnelState) (late : Late) :
-    ackDiscipline ((openTunnelDyn w id req ts late).obsDyn ts late) = true := by
+    ackDiscipline ((openTunnelDyn w id req ts late).obsDyn req ts late) = true := by
   have ha := attach_acked w id req ts late
   unfold ackDiscipline Outcome.obsDyn
   simp only
@@ -33,64 +33,82 @@ theorem ack_discipline_model (w : World) (id : ConnIdent) (req : Req) (ts : Tunn
 theorem arrival_clause (w : World) (id : ConnIdent) (req : Req) (ts : TunnelState) (late : Late)
     (hwf : identWF id = true) :
     (entitledB w id req ts ||
-      (((openTunnelDyn w id req ts late).obsDyn ts late).ack == .fail &&
-       ((openTunnelDyn w id req ts late).obsDyn ts late).att == .none &&
-       !((openTunnelDyn w id req ts late).obsDyn ts late).data)) = true := by
+      (((openTunnelDyn w id req ts late).obsDyn req ts late).ack == .fail &&
+       ((openTunnelDyn w id req ts late).obsDyn req ts late).att == .none &&
+       !((openTunnelDyn w id req ts late).obsDyn req ts late).data)) = true := by
   by_cases hr : openTunnelDyn w id req ts late = refuse
-  · rw [hr]; simp [refuse, Outcome.obsDyn]
+  · rw [hr]; simp [refuse, Outcome.obsDyn, dynData]
   · obtain ⟨cc, hf, ha, hm⟩ := passed_of_not_refused_dyn hr
     rw [entitled_of_passed hwf hf ha hm]; rfl
 
-/-- Second clause: whatever it is attached to (or receives bytes from) is a tunnel of a mapping it is entitled to. -/
+/-- Second clause: whatever it is attached to (or receives bytes from) is a tunnel of a mapping it is entitled to;
+for a connection held by a bridge that is the mapping THAT bridge serves. -/
 theorem attached_clause (w : World) (id : ConnIdent) (req : Req) (ts : TunnelState) (late : Late)
     (hwf : identWF id = true) :
-    ((((openTunnelDyn w id req ts late).obsDyn ts late).att == .none &&
-       !((openTunnelDyn w id req ts late).obsDyn ts late).data) ||
-      entitledB w id req (attachedTs ts late ((openTunnelDyn w id req ts late).obsDyn ts late).att)) = true := by
+    ((((openTunnelDyn w id req ts late).obsDyn req ts late).att == .none &&
+       !((openTunnelDyn w id req ts late).obsDyn req ts late).data) ||
+      entitledB w id req (attachedTs ts late ((openTunnelDyn w id req ts late).obsDyn req ts late).att
+        ((openTunnelDyn w id req ts late).obsDyn req ts late).on)) = true := by
   by_cases hr : openTunnelDyn w id req ts late = refuse
-  · rw [hr]; simp [refuse, Outcome.obsDyn]
+  · rw [hr]; simp [refuse, Outcome.obsDyn, dynData]
   · obtain ⟨cc, hf, ha, hm⟩ := passed_of_not_refused_dyn hr
     have he := entitled_of_passed hwf hf ha hm
+    -- entitled to a tunnel of the mapping it named, whatever shape that tunnel has
+    have hown : ∀ sv, entitledB w id req (.bridge req.MappingID sv) = true := fun sv =>
+      entitled_of_passed hwf hf ha (by simp [tunnelMappingID])
+    have hownr : ∀ n, entitledB w id req (.remote req.MappingID n) = true := fun n =>
+      entitled_of_passed hwf hf ha (by simp [tunnelMappingID])
     cases ts with
-    | bridge m sv => simp [attachedTs, he]
-    | remote m n => simp [attachedTs, he]
+    | bridge m sv =>
+      have hmm : m = req.MappingID := by simpa [tunnelMappingID] using hm
+      rcases dyn_bridge_cases w id req m sv late with e | e
+      · exact absurd e hr
+      · rw [e, hmm]
+        unfold handleExistingBridge
+        simp only [Outcome.obsDyn]
+        cases existingBridgeIsSource w id req <;> cases sv <;> simp [attachedTs, dynOn, dynData, hown]
+    | remote m n =>
+      rcases dyn_remote_cases w id req m n late with e | e
+      · exact absurd e hr
+      · rw [e]
+        unfold processCrossNodeForward
+        simp only [Outcome.obsDyn]
+        split
+        · simp [dynData]
+        · split
+          · simp [dynData]
+          · simp [attachedTs, he]
     | none =>
       rcases dyn_none_cases w id req late with h | h | h | ⟨m, hl, hmm, h⟩
       · exact absurd h hr
       · -- source of its own new tunnel (or nothing)
         rw [h]
-        cases late <;> simp [attachedTs, Outcome.obsDyn, handleSourceBridge, he]
+        cases late <;> simp [attachedTs, Outcome.obsDyn, dynData, dynOn, handleSourceBridge, hown]
       · rw [h]
         cases late with
-        | none => simp [attachedTs, Outcome.obsDyn, handleTargetBridge]
-        | noRouting => simp [attachedTs, Outcome.obsDyn, handleTargetBridge]
-        | early m => simp [attachedTs, Outcome.obsDyn, handleTargetBridge]
+        | none => simp [Outcome.obsDyn, dynData, handleTargetBridge]
+        | noRouting => simp [Outcome.obsDyn, dynData, handleTargetBridge]
+        | early m => simp [Outcome.obsDyn, dynData, handleTargetBridge]
         | route m n b =>
-          by_cases hat : (handleTargetBridge w req (.route m n b)).attach = .none
-          · simp [Outcome.obsDyn, hat]
-          · have hmm := late_attach_mapping hat
-            have he' : entitledB w id req (.remote m n) = true :=
-              entitled_of_passed hwf hf ha (by simpa [tunnelMappingID] using hmm)
-            have hns : (handleTargetBridge w req (.route m n b)).attach ≠ .source := by
-              unfold handleTargetBridge processCrossNodeForwardLate handleLocalBridgeWait
-              simp only [hmm, bne_self_eq_false, Bool.false_eq_true, if_false]
-              split
-              · split <;> simp
-              · split <;> simp
-            simp [attachedTs, Outcome.obsDyn, hns, he']
+          by_cases hmm : m = req.MappingID
+          · subst hmm
+            simp only [handleTargetBridge, processCrossNodeForwardLate, handleLocalBridgeWait, Outcome.obsDyn,
+              bne_self_eq_false, Bool.false_eq_true, if_false]
+            split
+            · cases b <;> simp [attachedTs, dynOn, dynData, hown]
+            · split
+              · simp [dynData]
+              · simp [attachedTs, hownr]
+          · simp [handleTargetBridge, processCrossNodeForwardLate, Outcome.obsDyn, dynData, hmm]
         | window m =>
-          by_cases hat : (handleTargetBridge w req (.window m)).attach = .none
-          · simp [Outcome.obsDyn, hat]
-          · have hmm := window_attach_mapping hat
-            have he' : entitledB w id req (.bridge m false) = true :=
-              entitled_of_passed hwf hf ha (by simpa [tunnelMappingID] using hmm)
-            have hns := window_attach_not_source w req m
-            simp [attachedTs, Outcome.obsDyn, hns, he']
+          by_cases hmm : m = req.MappingID
+          · subst hmm
+            simp [handleTargetBridge, Outcome.obsDyn, attachedTs, dynOn, hown]
+          · simp [handleTargetBridge, Outcome.obsDyn, dynData, hmm]
       · -- the bridge registered between the dispatcher's two look-ups
         subst hl
-        have he' : entitledB w id req (.bridge m false) = true :=
-          entitled_of_passed hwf hf ha (by simpa [tunnelMappingID] using hmm)
-        rw [h]; simp [attachedTs, Outcome.obsDyn, he']
+        subst hmm
+        rw [h]; simp [attachedTs, Outcome.obsDyn, dynOn, hown]
 
 /-- **C04, tunnel state changing during the request.**  `late` is whatever bridge or waiting route appears
 (for any mapping, on this or another node) while a request that found nothing at arrival is polling, or —
@@ -100,14 +118,14 @@ from it — only if it is entitled to THAT tunnel's mapping; and there is at mos
 written before anything is attached. -/
 theorem C04_main_dyn (w : World) (id : ConnIdent) (req : Req) (ts : TunnelState) (late : Late)
     (hwf : identWF id = true) :
-    holdsDyn w id req ts late ((openTunnelDyn w id req ts late).obsDyn ts late) = true := by
+    holdsDyn w id req ts late ((openTunnelDyn w id req ts late).obsDyn req ts late) = true := by
   unfold holdsDyn holds
   rw [arrival_clause w id req ts late hwf, ack_discipline_model w id req ts late,
     attached_clause w id req ts late hwf]
   rfl
 
-theorem obsDyn_none (o : Outcome) (ts : TunnelState) : o.obsDyn ts .none = o.obs ts := by
-  unfold Outcome.obsDyn Outcome.obs
+theorem obsDyn_none (o : Outcome) (req : Req) (ts : TunnelState) : o.obsDyn req ts .none = o.obs req ts := by
+  unfold Outcome.obsDyn Outcome.obs dynData dynOn obsData obsOn
   cases o.attach <;> cases ts <;> rfl
 
 /-- **C04.**  Whatever the mappings, the connection, the request and the tunnel state: if the requester is not
@@ -117,7 +135,7 @@ not expired and active), the dispatcher answers with a failure acknowledgement, 
 nowhere — not as source, not as target, not through another node — and no tunnel traffic reaches it; in every
 case it writes at most one acknowledgement. -/
 theorem C04_main (w : World) (id : ConnIdent) (req : Req) (ts : TunnelState) (hwf : identWF id = true) :
-    holds w id req ts ((openTunnel w id req ts).obs ts) = true := by
+    holds w id req ts ((openTunnel w id req ts).obs req ts) = true := by
   have h := C04_main_dyn w id req ts .none hwf
   unfold holdsDyn at h
   simp only [Bool.and_eq_true] at h
@@ -130,12 +148,13 @@ tunnel's mapping. -/
 theorem attach_entitled_dyn (w : World) (id : ConnIdent) (req : Req) (ts : TunnelState) (late : Late)
     (hwf : identWF id = true) (h : (openTunnelDyn w id req ts late).attach ≠ .none) :
     provenClient id ≠ 0 ∧
-    entitledB w id req (attachedTs ts late (openTunnelDyn w id req ts late).attach) = true := by
-  have hm := C04_main_dyn w id req ts late hwf
-  unfold holdsDyn at hm
-  simp only [Bool.and_eq_true, Bool.or_eq_true] at hm
-  have he : entitledB w id req (attachedTs ts late (openTunnelDyn w id req ts late).attach) = true := by
-    rcases hm.2 with hn | he
+    entitledB w id req (attachedTs ts late (openTunnelDyn w id req ts late).attach
+      (dynOn (openTunnelDyn w id req ts late).attach req ts late)) = true := by
+  have hm := attached_clause w id req ts late hwf
+  simp only [Bool.or_eq_true, Bool.and_eq_true] at hm
+  have he : entitledB w id req (attachedTs ts late (openTunnelDyn w id req ts late).attach
+      (dynOn (openTunnelDyn w id req ts late).attach req ts late)) = true := by
+    rcases hm with hn | he
     · simp [Outcome.obsDyn] at hn
       exact absurd hn.1 h
     · simpa [Outcome.obsDyn] using he
@@ -264,36 +283,33 @@ theorem canBeAccessedBy_iff (now : Nat) (m : PortMapping) (c : Nat) :
   rw [isValid_iff_usable]
   cases mappingUsable now m <;> cases m.ListenClientID == c <;> rfl
 
+/-- A waiting bridge takes the newcomer (as source or as target); a served one keeps its target. -/
 theorem handleExistingBridge_attach (w : World) (id : ConnIdent) (req : Req) :
-    (handleExistingBridge w id req).attach ≠ .none := by
+    (handleExistingBridge w id req false).attach ≠ .none ∧
+    (handleExistingBridge w id req true).attach ≠ .target := by
   unfold handleExistingBridge
-  simp only
-  split
-  · split
-    · split <;> simp
-    · simp
-  · simp
+  cases existingBridgeIsSource w id req <;> simp
 
 /-- The dispatcher is not vacuously safe: in every world, the authenticated target client of a usable mapping
 that presents the mapping's (non-empty) secret is acknowledged and attached to a waiting bridge of that mapping,
 and is forwarded when the tunnel waits on another node. -/
-theorem legit_target_served (w : World) (id : ConnIdent) (m : PortMapping) (tid : String) (sv : Bool) (n : String)
+theorem legit_target_served (w : World) (id : ConnIdent) (m : PortMapping) (tid : String) (n : String)
     (hc : id.hasControl = true) (hid : id.clientID = m.TargetClientID) (hne : m.TargetClientID ≠ 0)
     (hf : w.getPortMapping m.ID = some m) (hu : mappingUsable w.now m = true) (hs : m.SecretKey ≠ "")
     (hn : n ≠ w.nodeID) (hreach : w.unreachable.contains n = false) :
-    (openTunnel w id ⟨true, m.ID, tid, m.SecretKey, ""⟩ (.bridge m.ID sv)).ack = .ok ∧
-    (openTunnel w id ⟨true, m.ID, tid, m.SecretKey, ""⟩ (.bridge m.ID sv)).attach ≠ .none ∧
+    (openTunnel w id ⟨true, m.ID, tid, m.SecretKey, ""⟩ (.bridge m.ID false)).ack = .ok ∧
+    (openTunnel w id ⟨true, m.ID, tid, m.SecretKey, ""⟩ (.bridge m.ID false)).attach ≠ .none ∧
     openTunnel w id ⟨true, m.ID, tid, m.SecretKey, ""⟩ (.remote m.ID n) = ⟨.ok, .forward n, .switch⟩ := by
   have hv := usable_isValid hu
   have ha : handleTunnelOpenAuth w id.clientID ⟨true, m.ID, tid, m.SecretKey, ""⟩ = true := by
     unfold handleTunnelOpenAuth
     simp [hid, hne, hs, hf, hv, validateWithSecretKey]
-  have hb : openTunnel w id ⟨true, m.ID, tid, m.SecretKey, ""⟩ (.bridge m.ID sv)
-      = handleExistingBridge w id ⟨true, m.ID, tid, m.SecretKey, ""⟩ := by
+  have hb : openTunnel w id ⟨true, m.ID, tid, m.SecretKey, ""⟩ (.bridge m.ID false)
+      = handleExistingBridge w id ⟨true, m.ID, tid, m.SecretKey, ""⟩ false := by
     simp [openTunnel, openTunnelDyn, findControlConnection, hc, ha]
   refine ⟨?_, ?_, ?_⟩
   · rw [hb]; rfl
-  · rw [hb]; exact handleExistingBridge_attach w id _
+  · rw [hb]; exact (handleExistingBridge_attach w id _).1
   · have hmem : ¬ n ∈ w.unreachable := by simpa using hreach
     simp [openTunnel, openTunnelDyn, findControlConnection, hc, ha, processCrossNodeForward, hn, hmem]
 
@@ -309,7 +325,7 @@ theorem revoke_survives_updates (w : World) (m : PortMapping) (pre post : List U
     (hw : w.getPortMapping (tunnelMappingID req ts) = some (runSerial (pre ++ .revoke :: post) m)) :
     (runSerial (pre ++ .revoke :: post) m).IsRevoked = true ∧
     openTunnel w id req ts = refuse ∧
-    holdsRevoked (runSerial (pre ++ .revoke :: post) m).IsRevoked ((openTunnel w id req ts).obs ts) = true := by
+    holdsRevoked (runSerial (pre ++ .revoke :: post) m).IsRevoked ((openTunnel w id req ts).obs req ts) = true := by
   have hr : (runSerial (pre ++ .revoke :: post) m).IsRevoked = true := by
     rw [runSerial_append]
     have : runSerial (.revoke :: post) (runSerial pre m) = runSerial post (Update.revoke.apply (runSerial pre m)) := by
@@ -333,7 +349,8 @@ theorem asFound_revoke_lost :
 theorem asFound_revoke_lost_witness :
     holdsRevoked (runInterleaved [.usage, .revoke] [.read 0, .read 1, .write 1, .write 0] mM).IsRevoked
       ((openTunnel ⟨[runInterleaved [.usage, .revoke] [.read 0, .read 1, .write 1, .write 0] mM], 1000, "node-A", []⟩
-          ⟨true, 22, true, false, 0⟩ ⟨true, "M", "verif-tunnel-01", "s3cretM", ""⟩ (.bridge "M" false)).obs (.bridge "M" false))
+          ⟨true, 22, true, false, 0⟩ ⟨true, "M", "verif-tunnel-01", "s3cretM", ""⟩ (.bridge "M" false)).obs
+          ⟨true, "M", "verif-tunnel-01", "s3cretM", ""⟩ (.bridge "M" false))
       = false := by decide
 
 -- the same threads, not interleaved, are what `runSerial` says (the interleaved semantics is not vacuous)
@@ -406,12 +423,12 @@ def emptyReq : Req := ⟨true, "", "verif-tunnel-01", "", ""⟩
 bridge and acknowledged with success. -/
 theorem asFound_witness_bridge :
     holds wWitness nobody emptyReq (.bridge "M" false)
-      ((openTunnelAsFound wWitness nobody emptyReq (.bridge "M" false)).obs (.bridge "M" false)) = false := by decide
+      ((openTunnelAsFound wWitness nobody emptyReq (.bridge "M" false)).obs emptyReq (.bridge "M" false)) = false := by decide
 
 /-- As found: the same connection is piped to the node holding the bridge. -/
 theorem asFound_witness_remote :
     holds wWitness nobody emptyReq (.remote "M" "node-B")
-      ((openTunnelAsFound wWitness nobody emptyReq (.remote "M" "node-B")).obs (.remote "M" "node-B")) = false := by decide
+      ((openTunnelAsFound wWitness nobody emptyReq (.remote "M" "node-B")).obs emptyReq (.remote "M" "node-B")) = false := by decide
 
 /-! ## Non-vacuity: the hypotheses are inhabited and the dispatcher does attach entitled connections -/
 
@@ -446,14 +463,14 @@ example : openTunnelDyn wTwo targetOfF secretReqF .none (.route "M" "node-A" tru
 example : openTunnelDyn wTwo targetOfF secretReqF .none (.route "M" "node-B" false) = ⟨.ok, .none, .err⟩ := by decide
 -- what `holdsDyn` rejects: F's target as target of M's late bridge, reading M's bytes (the observation made on a
 -- tree where `processCrossNodeForward` takes the local-bridge shortcut before comparing the mappings)
-example : holdsDyn wTwo targetOfF secretReqF .none (.route "M" "node-A" true) ⟨.ok, .target, true, 1⟩ = false := by decide
-example : holdsDyn wTwo targetOfF secretReqF .none (.route "M" "node-A" true) ⟨.ok, .none, false, 1⟩ = true := by decide
+example : holdsDyn wTwo targetOfF secretReqF .none (.route "M" "node-A" true) ⟨.ok, .target, true, 1, "M"⟩ = false := by decide
+example : holdsDyn wTwo targetOfF secretReqF .none (.route "M" "node-A" true) ⟨.ok, .none, false, 1, ""⟩ = true := by decide
 
 -- a bridge registered in the window between the dispatcher's look-up and handleTargetBridge's look-up
 example : openTunnelDyn wTwo targetClient secretReq .none (.window "M") = ⟨.ok, .target, .switch⟩ := by decide
 example : openTunnelDyn wTwo targetOfF secretReqF .none (.window "M") = ⟨.ok, .none, .err⟩ := by decide
 example : openTunnelDyn wTwo listenClient midReq .none (.window "F") = ⟨.ok, .none, .err⟩ := by decide
-example : holdsDyn wTwo targetOfF secretReqF .none (.window "M") ⟨.ok, .target, true, 1⟩ = false := by decide
+example : holdsDyn wTwo targetOfF secretReqF .none (.window "M") ⟨.ok, .target, true, 1, "M"⟩ = false := by decide
 
 /-! ### identity asserted by the transport, configuration, fault points -/
 
@@ -490,7 +507,7 @@ example : openTunnel wZero halfOpen zidReq .none = refuse := by decide
 example : openTunnel wZero halfOpen zidReq (.bridge "Z" false) = refuse := by decide
 example : openTunnel wZero nobody zidReq .none = refuse := by decide
 -- what `holds` rejects: the observation made when the client-id guard is skipped on the mapping-id path
-example : holds wZero halfOpen zidReq .none ⟨.ok, .source, false, 1⟩ = false := by decide
+example : holds wZero halfOpen zidReq .none ⟨.ok, .source, false, 1, "Z"⟩ = false := by decide
 -- the target client with the secret is still served
 example : openTunnel wZero targetClient zsecReq (.remote "Z" "node-B") = ⟨.ok, .forward "node-B", .switch⟩ := by decide
 
@@ -498,10 +515,10 @@ example : openTunnel wZero targetClient zsecReq (.remote "Z" "node-B") = ⟨.ok,
 
 -- the rightful target forwarded from the polling path: what `holdsDyn` rejects is the observation made before the
 -- repair (a second TunnelOpenAck from forwardToSourceNode, delivered to a client already in stream mode) …
-example : holdsDyn wTwo targetClient secretReq .none (.route "M" "node-B" false) ⟨.ok, .forward "node-B", true, 2⟩ = false := by
+example : holdsDyn wTwo targetClient secretReq .none (.route "M" "node-B" false) ⟨.ok, .forward "node-B", true, 2, ""⟩ = false := by
   decide
 -- … and what it accepts is what the model (and the repaired code) does
-example : holdsDyn wTwo targetClient secretReq .none (.route "M" "node-B" false) ⟨.ok, .forward "node-B", true, 1⟩ = true := by
+example : holdsDyn wTwo targetClient secretReq .none (.route "M" "node-B" false) ⟨.ok, .forward "node-B", true, 1, ""⟩ = true := by
   decide
 example : openTunnelDyn wTwo targetClient secretReq .none (.route "M" "node-B" false) = ⟨.ok, .forward "node-B", .switch⟩ := by
   decide
@@ -509,9 +526,23 @@ example : openTunnelDyn wTwo targetClient secretReq .none (.route "M" "node-B" f
 -- attached without any acknowledgement (handleLocalBridgeWait before the repair) is rejected
 example : openTunnelDyn wTwo targetClient secretReq .none (.early "M") = ⟨.ok, .target, .switch⟩ := by decide
 example : openTunnelDyn wTwo targetOfF secretReqF .none (.early "M") = refuse := by decide
-example : holdsDyn wTwo targetClient secretReq .none (.early "M") ⟨.none, .target, true, 0⟩ = false := by decide
+example : holdsDyn wTwo targetClient secretReq .none (.early "M") ⟨.none, .target, true, 0, "M"⟩ = false := by decide
 -- a listen client arriving in that window is attached as TARGET of the other request's bridge (the route branch does
 -- not look at the role)
 example : openTunnelDyn wTwo listenClient midReq .none (.early "M") = ⟨.ok, .target, .switch⟩ := by decide
+
+/-! ### the bridge that holds the connection decides which tunnel it is on -/
+
+-- the listen client of M whose source open meets a bridge registered in the window (startSourceBridge's
+-- insert-if-absent) is not attached: "tunnel already exists"
+example : openTunnelDyn wTwo listenClient midReq .none (.window "F") = ⟨.ok, .none, .err⟩ := by decide
+-- what `holdsDyn` rejects: M's listen client held as SOURCE by the bridge of mapping F (a duplicate source open
+-- re-attached to the existing bridge without comparing the mappings) …
+example : holdsDyn wTwo listenClient midReq .none (.window "F") ⟨.ok, .source, false, 1, "F"⟩ = false := by decide
+-- … while being the source of its own new bridge is fine
+example : holdsDyn wTwo listenClient midReq .none .none ⟨.ok, .source, false, 1, "M"⟩ = true := by decide
+-- a served bridge keeps its target: the rightful target's duplicate open is acknowledged, not attached
+example : openTunnel wTwo targetClient secretReq (.bridge "M" true) = ⟨.ok, .none, .switch⟩ := by decide
+example : openTunnel wTwo targetClient secretReq (.bridge "M" false) = ⟨.ok, .target, .switch⟩ := by decide
 
 end Tunnox.C04
